@@ -32,6 +32,10 @@
 (*   requested, slack   nodes the pilot asked for (given as nodes when the *)
 (*             node size is known, else as requested * usable - slack      *)
 (*             cores from which the RM derives the node count)             *)
+(*   refused, hangs   positions (in the RM's node list) of the nodes whose  *)
+(*             ssh reachability probe is refused (exit code # 0) resp.     *)
+(*             never answers (timeout, cancelled, no exit code); the probe *)
+(*             is only made when the pilot has backup nodes                *)
 (*   backup, agents, service   backup nodes, sub-agents with target        *)
 (*             'node', presence of a ./services file                       *)
 (***************************************************************************)
@@ -128,10 +132,26 @@ Block(e, bc, bg) == [e EXCEPT !.cores = [c \in 1 .. Len(e.cores) |-> IF (c - 1) 
 FullList(in) == LET hs == AllocHosts(in)
                 IN [i \in 1 .. Len(hs) |-> Block(Entry(hs[i], i, NCores(in), in.gpn), in.bc, in.bg)]
 
-\* initialisation is expected to refuse: fewer nodes than asked for, or nothing
-\* left for tasks after the agent / service nodes are set aside
+\* ---- reachability: with backup nodes every node is probed, the unreachable
+\* ones (refused or hanging) must not be used
+Probed(in)  == in.backup > 0
+Down(in)    == IF Probed(in) THEN in.refused \cup in.hangs ELSE {}
+RECURSIVE KeepUp(_, _, _)
+KeepUp(s, i, down) == IF i > Len(s) THEN <<>>
+                      ELSE (IF i \in down THEN <<>> ELSE <<s[i]>>) \o KeepUp(s, i + 1, down)
+Healthy(in)  == KeepUp(FullList(in), 1, Down(in))
+MinOf2(a, b) == IF a <= b THEN a ELSE b
+\* nodes the pilot ends up with: the request, as far as healthy nodes exist
+NHealthy(in) == LET n == Len(AllocHosts(in)) IN n - Cardinality(Down(in) \cap (1 .. n))
+Granted(in)  == MinOf2(Req(in), NHealthy(in))
+
+\* initialisation is expected to refuse: fewer nodes allocated than asked for,
+\* no node reachable, or nothing left for tasks after the agent / service nodes
+\* are set aside (fewer healthy nodes than asked for is not refused: the pilot
+\* goes on with what it can reach)
 ExpectError(in) == \/ Req(in) > Len(AllocHosts(in))
-                   \/ Req(in) - in.agents - NSvc(in) < 1
+                   \/ NHealthy(in) = 0
+                   \/ Granted(in) - in.agents - NSvc(in) < 1
 
 \* ... or refuses because the allocation cannot be read
 Refuses(in) == ExpectError(in) \/ Uninterpretable(in)
@@ -145,23 +165,29 @@ Partition(full, req, nag, nsv) ==
       service |-> [i \in 1 .. nsv |-> cut[req - nag - i + 1]],
       backup  |-> SubSeq(full, req + 1, Len(full))]
 
-Expected(in) == Partition(FullList(in), Req(in), in.agents, NSvc(in))
+Expected(in) == Partition(Healthy(in), Granted(in), in.agents, NSvc(in))
 
 (* ---- C18 stated on a partition P = [nodes, agents, service, backup] ----- *)
 AllOf(P) == P.nodes \o P.agents \o P.service
 
 UniqueBy(s, F(_)) == \A i, j \in 1 .. Len(s) : i # j => F(s[i]) # F(s[j])
 
-\* one entry per allocated node the pilot may use: index = position, indices
-\* unique over all lists, names unique and allocated (FORK: indices only)
+\* one entry per allocated node the pilot may use: indices unique over all lists
+\* (= list positions if no node had to be dropped), names unique and allocated
+\* (FORK: indices only), as many as asked for (as far as healthy nodes exist)
 OnePerNode(P, in) ==
   LET all == AllOf(P)
       hs  == SeqSet(AllocHosts(in))
-  IN /\ \A i \in 1 .. Len(P.nodes) : P.nodes[i].index = i - 1
+  IN /\ Down(in) = {} => \A i \in 1 .. Len(P.nodes) : P.nodes[i].index = i - 1
      /\ UniqueBy(all, LAMBDA e : e.index)
      /\ in.rm # "FORK" => UniqueBy(all, LAMBDA e : e.name)
      /\ \A i \in 1 .. Len(all) : all[i].name \in hs
-     /\ Len(all) = Req(in)
+     /\ Len(all) = Granted(in)
+
+\* no unreachable node is offered (an entry's index is its position in the RM's list)
+Reachable(P, in) == \A i \in 1 .. Len(AllOf(P)) : (AllOf(P)[i].index + 1) \notin Down(in)
+\* nodes being down does not shrink the pilot while healthy (backup) nodes are there
+NotShorter(P, in) == Len(AllOf(P)) >= Granted(in)
 
 EntrySized(e, in) == /\ e.cores = Occ(NCores(in), in.bc)
                      /\ e.gpus  = Occ(in.gpn, in.bg)
